@@ -36,7 +36,7 @@ ASSUMPTIONS = [
 ]
 MANIFEST = {
     "technique": "Lean 4 proof (non-interference of the render / call tags in the caller's state, frame conditions, disabled include) + metamorphic and differential correspondence",
-    "text": "Theorems render_isolated, render_isolated_locals, partial_sees_only_args_and_globals, render_no_leak, copied_disables_include, include_disabled, block_with_include_fails, call_isolated, call_no_leak hold for all caller states, partial bodies, arguments and nesting; the model is tied to the code by random caller-pair programs and an exhaustive disabled-include stream.",
+    "text": "Theorems render_isolated, render_isolated_names, render_isolated_locals, partial_sees_only_args_and_globals, render_no_leak, copied_disables_include, include_disabled, block_with_include_fails, call_isolated, call_no_leak hold for all caller states, partial bodies, arguments and nesting; the model is tied to the code by random caller-pair programs and an exhaustive disabled-include stream.",
     "note": "Trusted: Lean kernel, the hand model of RenderContext.copy / render / call (STRICT mode), the harness. Arguments and defaults are evaluated in the caller's scope by design.",
 }
 
@@ -114,7 +114,7 @@ def gen_iso(rng):
         "kind": kind, "A": a, "B": b, "partials": partials,
         "args": {"g1": [g.leaf(), g.leaf()] if rng.chance(70) else g.leaf(), "zz": [gc_leaf(rng)]},
         "matter": {}, "tglobals": {"g2": g.data(1)} if rng.chance(50) else {}, "eglobals": {"g2": "e2"},
-        "strict": False, "sseq": False, "sfl": False,
+        "strict": False, "sseq": False, "sfl": False, "async": rng.chance(30),
     }
 
 
